@@ -156,7 +156,7 @@ class World:
         for gi, l in enumerate(looms):
             l.gindex = gi
             if loom_has_rank(l):
-                procs = sorted(l.procs, key=lambda p: (p.rank, p.pid))
+                procs = sorted(l.procs, key=lambda p: (-1 if p.rank is None else p.rank, p.pid))  # None only in C15's partial-rank worlds, whose rows are not compared with this reference
             else:
                 procs = sorted(l.procs, key=lambda p: p.pid)
             for p in procs:
